@@ -957,3 +957,113 @@ fn native_exd_filenames() {
     }
     println!("NATIVE native_exd_filenames cases={cases}");
 }
+
+//@use_common
+
+/// (type code, offset in the fixed-size region, width) of a schema with every column type; data_offset = 40
+fn nex_columns() -> Vec<(u16, u16)> {
+    vec![(0x0, 0), (0x1, 4), (0x2, 5), (0x3, 6), (0x4, 8), (0x5, 10), (0x6, 12), (0x7, 16), (0x9, 20), (0xA, 24), (0xB, 32),
+         (0x19, 7), (0x1A, 7), (0x1B, 7), (0x1C, 7), (0x1D, 7), (0x1E, 7), (0x1F, 7), (0x20, 7), (0x0, 36)]
+}
+fn nex_exh(data_offset: u16, columns: &[(u16, u16)], pages: &[(u32, u32)], languages: &[u8]) -> Vec<u8> {
+    let mut b = vec![];
+    b.extend_from_slice(b"EXHF"); b.extend_from_slice(&3u16.to_be_bytes()); b.extend_from_slice(&data_offset.to_be_bytes());
+    b.extend_from_slice(&(columns.len() as u16).to_be_bytes()); b.extend_from_slice(&(pages.len() as u16).to_be_bytes()); b.extend_from_slice(&(languages.len() as u16).to_be_bytes());
+    b.extend_from_slice(&[0u8; 6]); b.extend_from_slice(&pages.iter().map(|p| p.1).sum::<u32>().to_be_bytes()); b.extend_from_slice(&[0u8; 8]);
+    for (t, o) in columns { b.extend_from_slice(&t.to_be_bytes()); b.extend_from_slice(&o.to_be_bytes()); }
+    for (s, c) in pages { b.extend_from_slice(&s.to_be_bytes()); b.extend_from_slice(&c.to_be_bytes()); }
+    for l in languages { b.push(*l); b.push(0); }
+    b
+}
+/// the stored values of record (row, sub) - every cell is a function of (row, sub, column) so that a misplaced read shows
+struct NexRec { s1: String, b: bool, i8v: i8, u8v: u8, i16v: i16, u16v: u16, i32v: i32, u32v: u32, f: f32, i64v: i64, u64v: u64, packed: u8, s2: String }
+fn nex_rec(row: u32, sub: u32) -> NexRec {
+    let k = row.wrapping_mul(31).wrapping_add(sub * 7) % 100_003;
+    NexRec { s1: format!("name {row}/{sub}"), b: k % 2 == 1, i8v: (k as i8).wrapping_sub(100), u8v: k.wrapping_mul(3) as u8, i16v: (k as i16).wrapping_mul(-77), u16v: k.wrapping_mul(1001) as u16,
+             i32v: if k % 5 == 0 { i32::MIN } else { (k as i32).wrapping_mul(-123457) }, u32v: if k % 7 == 0 { u32::MAX } else { k.wrapping_mul(2654435761) }, f: k as f32 * 0.25 - 3.5,
+             i64v: if k % 3 == 0 { i64::MIN } else { (k as i64).wrapping_mul(-0x1_0000_0001) }, u64v: if k % 4 == 0 { u64::MAX } else { (k as u64).wrapping_mul(0x1_0000_0001) }, packed: k.wrapping_mul(37).wrapping_add(0x55) as u8, s2: if k % 2 == 0 { String::new() } else { format!("description of {row}.{sub} ~") } }
+}
+fn nex_fixed(r: &NexRec, s1_rel: u32, s2_rel: u32) -> Vec<u8> {
+    let mut f = vec![0u8; 40];
+    f[0..4].copy_from_slice(&s1_rel.to_be_bytes()); f[4] = r.b as u8; f[5] = r.i8v as u8; f[6] = r.u8v; f[7] = r.packed;
+    f[8..10].copy_from_slice(&r.i16v.to_be_bytes()); f[10..12].copy_from_slice(&r.u16v.to_be_bytes()); f[12..16].copy_from_slice(&r.i32v.to_be_bytes()); f[16..20].copy_from_slice(&r.u32v.to_be_bytes());
+    f[20..24].copy_from_slice(&r.f.to_be_bytes()); f[24..32].copy_from_slice(&r.i64v.to_be_bytes()); f[32..40].copy_from_slice(&r.u64v.to_be_bytes()); f[36..40].copy_from_slice(&s2_rel.to_be_bytes());
+    f
+}
+/// an EXD page: rows given as (row id, number of sub-rows); sub-row records are [u16 sub-row id][fixed region], strings pooled after the last record of the row
+fn nex_exd(rows: &[(u32, u32)]) -> Vec<u8> {
+    let mut body: Vec<u8> = vec![]; let mut index: Vec<(u32, u32)> = vec![];
+    let base = 32 + rows.len() * 8;
+    for (row, n) in rows {
+        let start = base + body.len();
+        index.push((*row, start as u32));
+        let many = *n > 1;
+        let rec_off = |i: u32| -> u32 { if many { start as u32 + 6 + i * 40 + 2 * (i + 1) } else { start as u32 + 6 } };
+        let pool_start = rec_off(n - 1) + 40;
+        let mut pool: Vec<u8> = vec![]; let mut fixed: Vec<u8> = vec![];
+        for i in 0..*n {
+            let r = nex_rec(*row, i);
+            if many { fixed.extend_from_slice(&(i as u16).to_be_bytes()); }
+            let s1_rel = pool_start + pool.len() as u32 - (rec_off(i) + 40); pool.extend_from_slice(r.s1.as_bytes()); pool.push(0);
+            let s2_rel = pool_start + pool.len() as u32 - (rec_off(i) + 40); pool.extend_from_slice(r.s2.as_bytes()); pool.push(0);
+            fixed.extend_from_slice(&nex_fixed(&r, s1_rel, s2_rel));
+        }
+        body.extend_from_slice(&((fixed.len() + pool.len()) as u32).to_be_bytes()); body.extend_from_slice(&(*n as u16).to_be_bytes());
+        body.extend_from_slice(&fixed); body.extend_from_slice(&pool);
+    }
+    let mut b = vec![];
+    b.extend_from_slice(b"EXDF"); b.extend_from_slice(&2u16.to_be_bytes()); b.extend_from_slice(&[0u8; 2]); b.extend_from_slice(&((rows.len() * 8) as u32).to_be_bytes()); b.extend_from_slice(&(body.len() as u32).to_be_bytes()); b.extend_from_slice(&[0u8; 16]);
+    for (id, off) in index { b.extend_from_slice(&id.to_be_bytes()); b.extend_from_slice(&off.to_be_bytes()); }
+    b.extend_from_slice(&body);
+    b
+}
+fn nex_check_row(got: &ExcelRow, row: u32, sub: u32) {
+    let r = nex_rec(row, sub);
+    assert_eq!(got.data.len(), 20, "one cell per column");
+    let cell = |i: usize| format!("{:?}", got.data[i]);
+    assert_eq!(cell(0), format!("{:?}", ColumnData::String(r.s1.clone())), "row {row}/{sub}: first string");
+    assert_eq!(cell(1), format!("{:?}", ColumnData::Bool(r.b)), "row {row}/{sub}: bool");
+    assert_eq!(cell(2), format!("{:?}", ColumnData::Int8(r.i8v))); assert_eq!(cell(3), format!("{:?}", ColumnData::UInt8(r.u8v)));
+    assert_eq!(cell(4), format!("{:?}", ColumnData::Int16(r.i16v))); assert_eq!(cell(5), format!("{:?}", ColumnData::UInt16(r.u16v)));
+    assert_eq!(cell(6), format!("{:?}", ColumnData::Int32(r.i32v)), "row {row}/{sub}: i32"); assert_eq!(cell(7), format!("{:?}", ColumnData::UInt32(r.u32v)), "row {row}/{sub}: u32");
+    assert_eq!(cell(8), format!("{:?}", ColumnData::Float32(r.f)), "row {row}/{sub}: float");
+    assert_eq!(cell(9), format!("{:?}", ColumnData::Int64(r.i64v)), "row {row}/{sub}: i64");
+    for bit in 0..8 { assert_eq!(cell(11 + bit), format!("{:?}", ColumnData::Bool(r.packed >> bit & 1 == 1)), "row {row}/{sub}: packed bool bit {bit}"); }
+    assert_eq!(cell(19), format!("{:?}", ColumnData::String(r.s2.clone())), "row {row}/{sub}: second string");
+}
+
+//@unit props=C05 label=B tier=quick native=1 fn=exd::EXD::{from_existing,read_row,read_column},exh::EXH::from_existing bound="by execution: one 20-column schema holding every column type (two strings, all eight packed-bool bits of one byte), pages of 1..6 rows in ascending, descending and shuffled id order, 1..4 sub-rows per row, 2 pages, 3 languages; every stored row id and 6 absent ids"
+//@desc a header built from bytes parses to its columns, pages and languages; reading a stored row returns one record per sub-row whose 20 cells equal the stored values (big-endian integers, float bits, one-byte bool, each packed bit, both strings); an unknown row id yields nothing
+#[test]
+fn native_exd_files() {
+    let mut cases = 0u64;
+    let exh = EXH::from_existing(&nex_exh(40, &nex_columns(), &[(0, 100), (100, 50)], &[0, 1, 2])).expect("header parses");
+    assert_eq!((exh.header.data_offset, exh.column_definitions.len(), exh.pages.len(), exh.languages.len()), (40, 20, 2, 3));
+    assert_eq!((exh.pages[1].start_id, exh.pages[1].row_count), (100, 50));
+    for (i, (t, o)) in nex_columns().iter().enumerate() { assert_eq!((exh.column_definitions[i].data_type.clone() as u16, exh.column_definitions[i].offset), (*t, *o), "column {i}"); }
+    let id_sets: Vec<Vec<u32>> = vec![vec![7], vec![1, 2, 3], vec![30, 20, 10], vec![5, 1, 9, 3, 7, 2], vec![0, u32::MAX, 1000000]];
+    for ids in id_sets.iter() { for subshape in 0..3u32 {
+        let rows: Vec<(u32, u32)> = ids.iter().enumerate().map(|(k, id)| (*id, match subshape { 0 => 1, 1 => 1 + (k as u32 % 4), _ => 4 - (k as u32 % 4) })).collect();
+        let exd = EXD::from_existing(&nex_exd(&rows)).expect("page parses");
+        for (id, n) in rows.iter() {
+            let got = exd.read_row(&exh, *id).expect("a stored row is found");
+            assert_eq!(got.len() as u32, *n, "one record per stored sub-row of row {id}");
+            for (sub, rec) in got.iter().enumerate() { nex_check_row(rec, *id, sub as u32); }
+            cases += 1;
+        }
+        for absent in [4u32, 6, 8, 11, 999, 0x8000_0000] { if !ids.contains(&absent) { assert!(exd.read_row(&exh, absent).is_none(), "unknown row id {absent} yields nothing"); cases += 1; } }
+    } }
+    println!("NATIVE native_exd_files cases={cases}");
+}
+
+//@unit props=C18 label=B tier=quick native=1 fn=exd::EXD::{from_existing,read_row},exh::EXH::from_existing bound="by execution: the 20-column header and a 3-row page with sub-rows of native_exd_files: every truncation and 7 single-byte corruptions per byte of the page (read with the intact header) and of the header (used to read the intact page), each followed by read_row on every stored id"
+//@desc damaged sheet headers and pages (truncated, any count, offset, type code, size or string byte damaged) yield None or values, never a panic
+#[test]
+fn native_exd_damaged_nopanic() {
+    let hb = nex_exh(40, &nex_columns(), &[(0, 100)], &[0]);
+    let pb = nex_exd(&[(1, 1), (2, 3), (3, 2)]);
+    let mut s = NativeSites::new();
+    { let hb = hb.clone(); let f = move |b: &[u8]| { if let (Some(h), Some(p)) = (EXH::from_existing(&hb), EXD::from_existing(b)) { for id in [1u32, 2, 3, 4] { let _ = p.read_row(&h, id); } } }; s.sweep(&pb, 1 << 20, 1, &f); }
+    { let pb = pb.clone(); let f = move |b: &[u8]| { if let (Some(h), Some(p)) = (EXH::from_existing(b), EXD::from_existing(&pb)) { for id in [1u32, 2, 3, 4] { let _ = p.read_row(&h, id); } } }; s.sweep(&hb, 1 << 20, 1, &f); }
+    s.finish("native_exd_damaged_nopanic");
+}
